@@ -187,6 +187,20 @@ class Gen:
                 return self.pick(vs)
             return self.pick(["true", "false"])
         r = self.rng.random()
+        if r < 0.06:
+            # array equality: equal arrays, proper prefixes, the empty array, unrelated arrays
+            op = self.pick(["==", "!="])
+            a = self.expr(scope, "A", depth + 2)
+            form = self.rng.randint(0, 4)
+            if form == 0:
+                return f"({a} {op} {a})"
+            if form == 1:
+                return f"({a} {op} ({a} + {self.expr(scope, 'A', depth + 2)}))"
+            if form == 2:
+                return f"(({a} + [{self.int_lit()}]) {op} {a})"
+            if form == 3:
+                return f"([] {op} {a})"
+            return f"({a} {op} {self.expr(scope, 'A', depth + 2)})"
         if r < 0.45:
             op = self.pick(["<", "<=", ">", ">=", "==", "!="])
             return f"({self.expr(scope, 'I', depth + 1)} {op} {self.expr(scope, 'I', depth + 1)})"
@@ -249,7 +263,9 @@ class Gen:
         self.indent += 1
         n = self.rng.randint(1, max(1, budget))
         for _ in range(n):
-            self.stmt(inner, budget // 2, in_loop)
+            # mostly halve the nesting budget; sometimes only decrement it, so that blocks inside
+            # blocks inside functions (and functions written there) do occur
+            self.stmt(inner, budget - 1 if self.chance(0.4) else budget // 2, in_loop)
         self.indent -= 1
         return inner
 
@@ -310,7 +326,9 @@ class Gen:
 
     def stmt_assign(self, scope):
         ty = self.pick(["I", "I", "B", "S"])
-        vs = self.vars_of(scope, ty, assignable=True)
+        # mostly the running function's own variables; sometimes a captured one (the rest of the
+        # activation must see the new value; later activations are unspecified)
+        vs = self.vars_of(scope, ty, assignable=not self.chance(0.3))
         if not vs:
             return self.stmt_let(scope)
         v = self.pick(vs)
@@ -378,7 +396,7 @@ class Gen:
         n = self.rng.randint(0, max(1, budget))
         body = Scope(inner)
         for _ in range(n):
-            self.stmt(body, budget // 2, False)
+            self.stmt(body, budget - 1 if self.chance(0.4) else budget // 2, False)
         if self.chance(0.5):
             self.emit(f"return {self.expr(body, 'I', 1)};")
         else:
